@@ -12,6 +12,13 @@ from vlib import *
 
 PROPS = ["C06", "C07", "C08", "C09", "C10", "C14", "C15", "C16"]
 
+
+class LibraryPanic(Exception):
+    """the library itself panicked inside a driver process (first frames of the panic are library frames)"""
+    def __init__(self, msg, stack, where):
+        Exception.__init__(self, msg)
+        self.msg, self.stack, self.where = msg, stack, where
+
 MODS = ["Session.tla", "MCSession.tla", "SessionTrace.tla"]
 
 
@@ -59,7 +66,7 @@ def gen_timing(rnd, n_per):
             for k in range(n_per):
                 p = Peer()
                 st = logged_on_prefix(role, N, p)
-                kind = rnd.choice(["idle", "sendnear", "inboundnear", "silence", "answer", "steady", "burst", "stop", "logoutthenidle", "relogon", "relogonsteady", "midcall"])
+                kind = rnd.choice(["idle", "sendnear", "inboundnear", "silence", "answer", "steady", "burst", "stop", "logoutthenidle", "relogon", "relogonsteady", "midcall", "whilewaiting", "logoutnoanswer"])
                 if kind == "idle":
                     st += [act("advance", ms=rnd.choice([T - 1, T, T + T // 10, 3 * T, 7 * T + 13]))]
                 elif kind == "sendnear":
@@ -96,6 +103,23 @@ def gen_timing(rnd, n_per):
                 elif kind == "relogon":
                     st += [act("advance", ms=rnd.choice([T // 2, T])), p("logout"), act("advance", ms=rnd.choice([1, 300, T, 2 * T])),
                            p("logon", hb=N), act("advance", ms=rnd.choice([T + T // 10 + 1, 3 * T]))]
+                elif kind == "whilewaiting":
+                    # the session has sent its own TestRequest; every kind of inbound message arrives while it waits for the answer
+                    st += [act("advance", ms=tin + tin // 10 + 1)]
+                    k2 = rnd.choice(["testreq", "logon", "logon-noseq", "resend", "logout", "hbt-bad", "testreq-noseq"])
+                    if k2 == "logon-noseq":
+                        st += [p("logon", hb=N, sq="missing")]
+                    elif k2 == "testreq-noseq":
+                        st += [p("testreq", id=[70], sq="missing")]
+                    elif k2 == "hbt-bad":
+                        st += [p("hbt", integ="checksum")]
+                    else:
+                        st += [p(k2, hb=N, id=[71], b=1, e=0)]
+                    st += [p("testreq", id=[72]), act("advance", ms=T // 2), p("hbt"), act("advance", ms=T + T // 10 + 1)]
+                elif kind == "logoutnoanswer":
+                    # a local Logout the peer never answers, then more traffic
+                    st += [act("advance", ms=rnd.choice([1, T // 2])), act("llogout"), act("advance", ms=rnd.choice([tin + tin // 10 + 1, 2 * tin + tin // 4, T]))]
+                    st += [p(rnd.choice(["hbt", "app", "testreq", "resend"]), id=[73], b=1, e=0), p("hbt"), act("advance", ms=tin + tin // 10 + 1)]
                 elif kind == "relogonsteady":
                     # a second logon on the same session, then a live peer (period <= N) for many periods: never probed
                     st += [act("advance", ms=rnd.choice([T // 2, T])), p("logout"), act("advance", ms=rnd.choice([1, 300, T])), p("logon", hb=N)]
@@ -150,6 +174,12 @@ def gen_resend(rnd, n):
         sent = rnd.randint(0, 8)
         for _ in range(sent):
             st.append(rnd.choice([act("send"), p("testreq", id=[65]), p("hbt", integ="checksum")]))
+        if rnd.random() < 0.5:
+            # idle periods: the history then contains timer heartbeats (and a test request), which are resent like anything else
+            for _ in range(rnd.randint(1, 3)):
+                st.append(act("advance", ms=rnd.choice([30000, 33001, 61000])))
+                st.append(p("hbt"))
+                sent += 2
         last_guess = start + sent + 2
         for _ in range(rnd.randint(1, 6)):
             b = rnd.randint(0, last_guess + 2)
@@ -297,7 +327,13 @@ def run_driver(run, binp, scns, name, testname="TestScenarios", extra_env=None):
         lf.close()
         if rc != 0:
             with open(tr + ".log") as f:
-                raise Inconclusive("session driver failed (exit %d):\n%s" % (rc, f.read()[-3000:]))
+                txt = f.read()
+            import re
+            m = re.search(r"^panic: (.*)$", txt, re.M)
+            if m and "DRIVER-ERROR" not in txt and re.search(r"^github\.com/b2broker/simplefix-go[^\n]*\n\t/", txt[m.start():], re.M) \
+                    and "verifharness" not in txt[m.start():m.start() + 4000].split("github.com/b2broker/simplefix-go")[0]:
+                raise LibraryPanic(m.group(1), txt[m.start():m.start() + 3000], name)
+            raise Inconclusive("session driver failed (exit %d):\n%s" % (rc, txt[-3000:]))
         traces.append(tr)
     return traces
 
